@@ -508,6 +508,8 @@ pub fn jobs(tier: Tier, full: bool) -> Vec<Job> {
             vec!["<a>", "<b>", "<i>", "<u>", "<s>", "<em>", "<strong>", "<p>"],
             vec!["<a>", "<div>", "<div>", "<div>", "<div>", "<div>", "<div>", "<div>", "<div>", "<div>"],
             vec!["<b>", "<p>", "<p>", "<div>", "<div>", "<div>", "<div>", "<div>", "<div>", "<div>"],
+            vec!["<div>", "<a>", "<b class=c id=1>", "<p>"],
+            vec!["<a>", "<b id=1>", "<i>", "<div>"],
             vec!["<b>", "<i>", "<span>"],
             vec!["<a>", "<span>", "<b>", "<x>", "<i>"],
             vec!["<b>", "<b>", "<b>"],
@@ -555,6 +557,15 @@ pub fn jobs(tier: Tier, full: bool) -> Vec<Job> {
         v.push(Job { name: format!("J7/{}", w.concat()), cfg: TreeCfg::default(), prefix: w.clone(), sigma: sig7.clone(), depth });
         w = vec!["<div>", "<selectedcontent>", "</div>", "<select>", "<optgroup>"];
         v.push(Job { name: format!("J7/{}", w.concat()), cfg: TreeCfg::default(), prefix: w, sigma: sig7.clone(), depth });
+    }
+    // J11: the end of the document: leftover active formatting elements / open elements, then </body>,
+    // </html>, white space, comments, text, stray tags in the after-body family of modes
+    {
+        let sig11: Vec<&'static str> = vec!["</body>", "</html>", " ", "\n", "x", "<!--c-->", "<p>", "</p>", "<!DOCTYPE html>", "<html lang=en>", "<frameset>", "</b>", "<b>", "<body class=b>"];
+        let depth = tier.pick(4, 5);
+        for w in [vec!["<p>", "<b>", "x", "</p>"], vec!["<div>", "<a>", "x", "</div>"], vec!["<b>", "<table>"], vec!["<i>"], vec!["x"], vec![]] {
+            v.push(Job { name: format!("J11/{}", w.concat()), cfg: TreeCfg::default(), prefix: w, sigma: sig11.clone(), depth });
+        }
     }
     for f in fragment_contexts() {
         if !full && (f.local == "select" || f.local == "option") {
